@@ -406,6 +406,25 @@ func elemArgs(thorough bool) []ref.Bits {
 		add(false, big.NewInt(ab), 0)
 		add(true, big.NewInt(ab), -2)
 	}
+	// (iii-b) leading digits at the binary accumulator limits (2^64, 2^128, 2^192, 2^256 scaled by powers of ten), as the
+	// argument itself, as its fraction, and as the part after "1.0" for the logarithms
+	for _, ps := range LimitPrefixes() {
+		c := bi(ps)
+		if c.Cmp(ref.Cmax) > 0 {
+			continue
+		}
+		L := len(ps)
+		for _, sh := range []int{-L, -L + 1, -L + 2, -L - 1, -L - 3} {
+			add(false, c, sh)
+			add(true, c, sh)
+		}
+		// 1.0 + 0.0<prefix>
+		if L+2 <= 34 {
+			one := new(big.Int).Add(ref.Pow10(L+1), c)
+			add(false, one, -(L + 1))
+			add(false, new(big.Int).Sub(ref.Pow10(L+1), c), -(L + 1))
+		}
+	}
 	// (iv) exact cases: integers (Exp10/Exp2 arguments), powers of two, powers of ten are in (i)
 	for n := int64(-6200); n <= 6200; n++ {
 		if thorough || n%5 == 0 || (n > -70 && n < 140) || n < -6150 || n > 6100 {
